@@ -501,6 +501,8 @@ class Color(NamedTuple):
                 triplet = self.triplet
             else:  # self.system == ColorSystem.EIGHT_BIT
                 assert self.number is not None
+                if self.number < 16:
+                    return Color(self.name, ColorType.STANDARD, number=self.number)
                 triplet = ColorTriplet(*EIGHT_BIT_PALETTE[self.number])
 
             color_number = STANDARD_PALETTE.match(triplet)
